@@ -109,6 +109,7 @@ type FnContract struct {
 	Deltas    []*Clause
 	Dec       *Clause
 	OnAssign  []*CallSiteAssert // Callee = local variable name: asserted right after its first assignment
+	DeadReturns map[int]bool // return sites (in processing order) that the contracts make unreachable on purpose
 	FreshWrites []string // struct types whose fields this function may only write on objects it owns (fresh / mine)
 }
 
@@ -154,6 +155,7 @@ type SpecDB struct {
 	Lemmas   []*Clause
 	UFs      map[string]*UFDecl
 	Tracked  map[string]bool
+	Assumed    []string // `assumption [C18] text` directives: stated, unchecked assumptions copied into the evidence
 	RaceStrict map[string]bool
 	SweepWrappers map[string]bool
 	RawAxioms []RawAxiom
@@ -193,6 +195,7 @@ type UFDecl struct {
 
 type AutoTag struct {
 	Kind string
+	Fn   string
 	File string
 	Tags []string
 	Pkg  string
@@ -221,11 +224,11 @@ func parseLabel(s string) (label string, tags []string, rest string) {
 	return
 }
 
-var directiveKW = map[string]bool{"globalinv": true, "uf": true, "tracked": true, "cond": true, "callers": true, "racestrict": true, "sweepwrappers": true, "rawaxiom": true, "autotag": true, "option": true, "import": true, "ghost": true, "pred": true, "inv": true, "lockinv": true, "protect": true,
+var directiveKW = map[string]bool{"assumption": true, "autotagfn": true, "globalinv": true, "uf": true, "tracked": true, "cond": true, "callers": true, "racestrict": true, "sweepwrappers": true, "rawaxiom": true, "autotag": true, "option": true, "import": true, "ghost": true, "pred": true, "inv": true, "lockinv": true, "protect": true,
 	"typeinv": true, "lockorder": true, "guards": true, "func": true, "dyn": true, "lemma": true, "mono": true, "spec": true}
 var clauseKW = map[string]bool{"requires": true, "ensures": true, "loop": true, "locks": true, "modifies": true, "inline": true,
 	"trusted": true, "entry": true, "optional": true, "blocking": true, "pure": true, "callsite": true, "captures": true,
-	"interruptible_by": true, "constructor": true, "delta": true, "decreases": true, "fresh_writes": true, "onassign": true}
+	"interruptible_by": true, "constructor": true, "delta": true, "decreases": true, "fresh_writes": true, "onassign": true, "deadreturn": true}
 
 // loadSpecFile parses one contract file. goFile: lines are taken from //@ comments.
 func (db *SpecDB) loadSpecFile(path string, pkgPath string, goFile bool) {
@@ -490,6 +493,8 @@ func (db *SpecDB) loadSpecFile(path string, pkgPath string, goFile bool) {
 			for _, t := range strings.Fields(it.text) {
 				db.SweepWrappers[pkgPath+"."+t] = true
 			}
+		case "assumption":
+			db.Assumed = append(db.Assumed, it.text)
 		case "racestrict":
 			for _, t := range strings.Fields(it.text) {
 				db.RaceStrict[pkgPath+"."+t] = true
@@ -500,6 +505,12 @@ func (db *SpecDB) loadSpecFile(path string, pkgPath string, goFile bool) {
 			}
 		case "globalinv":
 			db.GlobalInvs[pkgPath] = append(db.GlobalInvs[pkgPath], mkClause(it.text, it.n))
+		case "autotagfn":
+			// autotagfn <kind> <function name> C18
+			f := strings.Fields(it.text)
+			if len(f) >= 3 {
+				db.AutoTags = append(db.AutoTags, AutoTag{Kind: f[0], Fn: f[1], Tags: f[2:], Pkg: pkgPath})
+			}
 		case "autotag":
 			// autotag <kind> <file-suffix|*> C05 C12
 			f := strings.Fields(it.text)
@@ -544,6 +555,15 @@ func (db *SpecDB) loadSpecFile(path string, pkgPath string, goFile bool) {
 					continue
 				}
 				cur.OnAssign = append(cur.OnAssign, &CallSiteAssert{Callee: f[0], N: 1, C: mkClause(f[2], it.n)})
+			case "deadreturn":
+				if cur.DeadReturns == nil {
+					cur.DeadReturns = map[int]bool{}
+				}
+				for _, f := range strings.Fields(it.text) {
+					if n, err := strconv.Atoi(f); err == nil {
+						cur.DeadReturns[n] = true
+					}
+				}
 			case "fresh_writes":
 				cur.FreshWrites = append(cur.FreshWrites, strings.Fields(it.text)...)
 			case "delta":
@@ -748,6 +768,22 @@ func lexSpec(s string) []stok {
 			j := i + 1
 			for j < len(s) && (unicode.IsDigit(rune(s[j])) || s[j] == '_' || s[j] == 'x' || (s[j] >= 'a' && s[j] <= 'f') || (s[j] >= 'A' && s[j] <= 'F')) {
 				j++
+			}
+			// decimal fraction / exponent: a floating-point literal
+			if j < len(s) && s[j] == '.' && j+1 < len(s) && unicode.IsDigit(rune(s[j+1])) {
+				j++
+				for j < len(s) && unicode.IsDigit(rune(s[j])) {
+					j++
+				}
+				if j < len(s) && (s[j] == 'e' || s[j] == 'E') {
+					j++
+					if j < len(s) && (s[j] == '+' || s[j] == '-') {
+						j++
+					}
+					for j < len(s) && unicode.IsDigit(rune(s[j])) {
+						j++
+					}
+				}
 			}
 			out = append(out, stok{tNum, strings.ReplaceAll(s[i:j], "_", "")})
 			i = j
